@@ -304,6 +304,24 @@ static carquet_status_t flush_row_group(carquet_writer_t* writer) {
         return CARQUET_OK;
     }
 
+    /* A row group is a table: the (non-repeated) columns that were written
+     * must have received the same number of rows. Completing it otherwise
+     * records num_rows from one column while another chunk holds a different
+     * number of values. (Columns that received nothing at all are let
+     * through: callers that only exercise the schema write such files.) */
+    {
+        int64_t rows = -1;
+        for (int32_t i = 0; i < writer->num_columns; i++) {
+            if (writer->columns[i].max_rep_level > 0) continue;
+            if (writer->column_values_written[i] == 0) continue;
+            if (rows < 0) {
+                rows = writer->column_values_written[i];
+            } else if (writer->column_values_written[i] != rows) {
+                return CARQUET_ERROR_INVALID_STATE;
+            }
+        }
+    }
+
     /* Finalize the row group */
     const uint8_t* data;
     size_t size;
